@@ -38,6 +38,12 @@ pub struct Install {
 pub struct Lifetime {
     pub ops: Vec<Install>,
     pub exit_panic: bool,
+    /// what the rest of the process did since the previous lifetime ended:
+    /// "reprotect_text" (code pages are r-x again, e.g. a W^X-enforcing runtime or a reloaded
+    /// library) | "occupy_freed" (somebody else now owns the pages the previous lifetime's
+    /// trampolines lived in)
+    #[serde(default)]
+    pub pre: Vec<String>,
 }
 
 #[derive(Serialize, Deserialize, Clone, Debug, PartialEq)]
@@ -623,7 +629,7 @@ pub fn generate(profile: &str, variant: &str, seed: u64, index: u64) -> SimScena
                 classes.push(format!("kind-{kind}"));
                 ops.push(Install { target: rng.below(l.targets.len() as u64) as usize, kind: kind.into(), fake, value: rng.chance(1, 2) });
             }
-            lifetimes.push(Lifetime { ops, exit_panic: rng.chance(1, 6) });
+            lifetimes.push(Lifetime { ops, exit_panic: rng.chance(1, 6), pre: Vec::new() });
             classes.extend(l.classes.iter().cloned());
             return finish(profile, variant, seed, index, ps, pol, l, lifetimes, classes);
         }
@@ -663,7 +669,19 @@ pub fn generate(profile: &str, variant: &str, seed: u64, index: u64) -> SimScena
                 classes.push(format!("n{}-rep{}", n_ops.min(8), maxrep.min(3)));
                 let exit_panic = rng.chance(1, 4);
                 classes.push(if exit_panic { "exit-panic".into() } else { "exit-drop".into() });
-                lifetimes.push(Lifetime { ops, exit_panic });
+                // what the rest of the process did since the previous lifetime
+                let mut pre: Vec<String> = Vec::new();
+                if !lifetimes.is_empty() {
+                    if rng.chance(1, 4) {
+                        pre.push("reprotect_text".into());
+                        classes.push("env-reprotect-text".into());
+                    }
+                    if rng.chance(1, 4) {
+                        pre.push("occupy_freed".into());
+                        classes.push("env-occupy-freed".into());
+                    }
+                }
+                lifetimes.push(Lifetime { ops, exit_panic, pre });
             }
             classes.extend(l.classes.iter().cloned());
             return finish(profile, variant, seed, index, ps, pol, l, lifetimes, classes);
@@ -707,7 +725,7 @@ pub fn generate(profile: &str, variant: &str, seed: u64, index: u64) -> SimScena
                 let fake2 = if arch == Arch::Arm { gen_fake32(&mut rng, &mut classes) } else { gen_fake64(&mut rng, None, &mut classes) };
                 ops.push(Install { target: 0, kind: "raw".into(), fake: fake2, value: false });
             }
-            lifetimes.push(Lifetime { ops, exit_panic: false });
+            lifetimes.push(Lifetime { ops, exit_panic: false, pre: Vec::new() });
             classes.extend(l.classes.drain(..));
             return finish(profile, variant, seed, index, ps, pol, l, lifetimes, classes);
         }
@@ -748,7 +766,7 @@ pub fn generate(profile: &str, variant: &str, seed: u64, index: u64) -> SimScena
                 ops.push(Install { target: 0, kind: kind.into(), fake: fake.max(1), value: i % 32 == 15 });
             }
             classes.push(format!("mode{mode}-pos{pos}"));
-            lifetimes.push(Lifetime { ops, exit_panic: false });
+            lifetimes.push(Lifetime { ops, exit_panic: false, pre: Vec::new() });
             classes.extend(l.classes.iter().cloned());
             return finish(profile, variant, seed, index, ps, pol, l, lifetimes, classes);
         }
@@ -771,7 +789,7 @@ pub fn generate(profile: &str, variant: &str, seed: u64, index: u64) -> SimScena
                     _ => "entry-t32-halfword".into(),
                 });
             }
-            lifetimes.push(Lifetime { ops, exit_panic: rng.chance(1, 8) });
+            lifetimes.push(Lifetime { ops, exit_panic: rng.chance(1, 8), pre: Vec::new() });
             classes.extend(l.classes.iter().cloned());
             return finish(profile, variant, seed, index, ps, pol, l, lifetimes, classes);
         }
